@@ -41,6 +41,8 @@ pub enum Ev {
     /// Remove the folder, or add it back.
     Folder { add: bool },
     Checkpoint,
+    /// Semantic checkpoint against `Scenario::sem[target]` ("C17" or "C18").
+    Sem { target: usize, mode: String },
 }
 
 #[derive(Serialize, Deserialize, Clone, Debug)]
@@ -49,6 +51,8 @@ pub struct Scenario {
     pub disk: BTreeMap<String, String>,
     pub hash_seed: u64,
     pub events: Vec<Ev>,
+    #[serde(default)]
+    pub sem: Vec<crate::sem::SemTarget>,
 }
 
 pub struct World {
@@ -322,6 +326,7 @@ pub struct Exec<'w> {
     pub discarded: Option<String>,
     pub check_drift: bool,
     pub compare_fresh_on_requests: bool,
+    pub sem: Vec<crate::sem::SemTarget>,
 }
 
 fn legal_path(p: &str) -> bool {
@@ -345,7 +350,12 @@ impl<'w> Exec<'w> {
             discarded: None,
             check_drift: true,
             compare_fresh_on_requests: true,
+            sem: scn.sem.clone(),
         }
+    }
+
+    pub fn fail_pub(&mut self, at: usize, oracle: &str, signature: String, detail: String) {
+        self.fail(at, oracle, signature, detail)
     }
 
     fn fail(&mut self, at: usize, oracle: &str, signature: String, detail: String) {
@@ -402,7 +412,7 @@ impl<'w> Exec<'w> {
         let death = self.peer.server.death.clone().unwrap_or_default();
         // Reproduce on a fresh server: current texts, then the same last event.
         let base = match ev {
-            Ev::Request { .. } | Ev::RenameLoop { .. } | Ev::Idle | Ev::Checkpoint => pre_client.clone(),
+            Ev::Request { .. } | Ev::RenameLoop { .. } | Ev::Idle | Ev::Checkpoint | Ev::Sem { .. } => pre_client.clone(),
             _ => self.client.clone(),
         };
         let mut fresh = fresh_peer(self.world, &base);
@@ -525,6 +535,12 @@ impl<'w> Exec<'w> {
                     self.peer.did_open(path, text, 1);
                 }
             }
+            Ev::Change { path, changes } if !changes_legal(self.client.open.get(path).map(|x| x.0.as_str()), changes) => {
+                // a position inside a surrogate pair (possible only when a minimisation
+                // candidate or a rename loop put the plan out of step with the buffer)
+                let _ = path;
+                sent = false;
+            }
             Ev::Change { path, changes } => {
                 if let Some((buf, ver)) = self.client.open.get_mut(path) {
                     *ver += 1;
@@ -615,7 +631,7 @@ impl<'w> Exec<'w> {
                 }
             }
             Ev::Request { kind, path, pos, new_name } => {
-                if self.client.effective(path).is_none() {
+                if self.client.effective(path).map(|t| !position::representable(t, *pos)).unwrap_or(true) {
                     sent = false;
                 } else {
                     if stale_before {
@@ -630,13 +646,24 @@ impl<'w> Exec<'w> {
                 }
             }
             Ev::RenameLoop { path, pos, new_name } => {
-                if self.client.effective(path).is_none() {
+                if self.client.effective(path).map(|t| !position::representable(t, *pos)).unwrap_or(true) {
                     sent = false;
                 } else {
                     if stale_before {
                         self.stats.probe("request_while_stale");
                     }
                     self.rename_loop(at, path, *pos, new_name);
+                }
+            }
+            Ev::Sem { target, mode } => {
+                if let Some(t) = self.sem.get(*target).cloned() {
+                    if mode == "C17" {
+                        crate::sem::check_c17(self, at, &t);
+                    } else {
+                        crate::sem::check_c18(self, at, &t);
+                    }
+                } else {
+                    sent = false;
                 }
             }
             Ev::Checkpoint => {
@@ -723,6 +750,21 @@ impl<'w> Exec<'w> {
     }
 }
 
+/// All positions of a change notification are meaningful in the text they apply to.
+fn changes_legal(buf: Option<&str>, changes: &[Chg]) -> bool {
+    let Some(buf) = buf else { return true };
+    let mut t = buf.to_string();
+    for c in changes {
+        if let Some((s, e)) = c.range {
+            if !position::representable(&t, s) || !position::representable(&t, e) {
+                return false;
+            }
+        }
+        position::apply_change(&mut t, c.range, &c.text);
+    }
+    true
+}
+
 pub fn ev_name(ev: &Ev) -> &'static str {
     match ev {
         Ev::Open { .. } => "O",
@@ -739,6 +781,7 @@ pub fn ev_name(ev: &Ev) -> &'static str {
         Ev::RenameLoop { .. } => "R",
         Ev::Folder { .. } => "F",
         Ev::Checkpoint => "K",
+        Ev::Sem { .. } => "M",
     }
 }
 
